@@ -4,7 +4,8 @@
 (* direct electric, PV, heat pump (electricity + ambient heat), solar      *)
 (* thermal, gas boiler, district heat, biomass with or without declared    *)
 (* output, densified biomass - with other services (electric and not),     *)
-(* non-EPB use, auxiliaries on the DHW system, two k_exp, one or two       *)
+(* non-EPB use, auxiliaries on the DHW system, a cogenerator fed by a       *)
+(* nearby fuel, a distant one or both, two k_exp, one or two               *)
 (* steps; the DHW demand is either CONSISTENT (the heat the supply         *)
 (* delivers: efficiency 1 for electricity, ambient, solar and district     *)
 (* heat, 9/10 for gas, 4/5 for biomass) or one of the documented           *)
@@ -49,11 +50,16 @@ Supply(m) ==
 
 PickExtra ==
   /\ ph = 1 /\ ph' = 2
-  /\ \E oel \in BOOLEAN, ogas \in BOOLEAN, nep \in BOOLEAN, aux \in BOOLEAN, bcal \in BOOLEAN, dm \in {"consistent", "absent", "zero"} :
+  /\ \E oel \in BOOLEAN, ogas \in BOOLEAN, nep \in BOOLEAN, aux \in BOOLEAN, bcal \in BOOLEAN, dm \in {"consistent", "absent", "zero"},
+        chp \in {"no", "bio", "gas", "mixed"} :
        /\ (aux => mix.el \/ mix.hp)
+       \* a cogenerator whose electricity reaches the DHW electricity use: fed by a nearby fuel, a distant one, or both
+       /\ (chp # "no" => (mix.el \/ mix.hp) /\ ~bcal /\ ~ogas)
+       \* (the two-fuel cogenerator only next to supplies without further odd denominators: 32-bit exact arithmetic)
+       /\ (chp = "mixed" => mix.bio = "no" /\ ~mix.dbio /\ ~mix.red)
        \* the biomass boilers may also heat (another service of the same system, with its own declared output)
        /\ (bcal => mix.bio = "out" \/ mix.dbio)
-       /\ extra' = [oel |-> oel, ogas |-> ogas, nep |-> nep, aux |-> aux, bcal |-> bcal]
+       /\ extra' = [oel |-> oel, ogas |-> ogas, nep |-> nep, aux |-> aux, bcal |-> bcal, chp |-> chp]
        /\ demand' = dm
        /\ comps' = Supply(mix)
             \o (IF oel THEN <<Used(8, "ELECTRICIDAD", "ILU", Const(60))>> ELSE <<>>)
@@ -61,6 +67,10 @@ PickExtra ==
             \o (IF bcal /\ mix.bio = "out" THEN <<Used(6, "BIOMASA", "CAL", Const(30)), Out(6, "CAL", Const(25))>> ELSE <<>>)
             \o (IF bcal /\ mix.dbio THEN <<Used(7, "BIOMASADENSIFICADA", "CAL", Const(20)), Out(7, "CAL", Const(15))>> ELSE <<>>)
             \o (IF nep THEN <<Used(0, "ELECTRICIDAD", "NEPB", Const(50))>> ELSE <<>>)
+            \o (IF chp = "no" THEN <<>> ELSE <<Prod(10, "EL_COGEN", Const(30))>>)
+            \o (IF chp = "bio" THEN <<Used(10, "BIOMASA", "COGEN", Const(80))>> ELSE <<>>)
+            \o (IF chp = "gas" THEN <<Used(10, "GASNATURAL", "COGEN", Const(80))>> ELSE <<>>)
+            \o (IF chp = "mixed" THEN <<Used(10, "BIOMASA", "COGEN", Const(50)), Used(10, "GASNATURAL", "COGEN", Const(40))>> ELSE <<>>)
             \o (IF aux THEN <<Aux(IF mix.el THEN 1 ELSE 2, "ACS", Const(10))>> ELSE <<>>)
             \o (IF dm = "absent" THEN <<>> ELSE <<Need("ACS", Const(IF dm = "zero" THEN 0 ELSE Delivered10(mix)))>>)
   /\ UNCHANGED <<n, mix>>
@@ -95,13 +105,13 @@ Invariances ==
 BioFrac == Norm(1003, 1037)
 DBioFrac == Norm(1028, 1113)
 ClosedForm ==
-  (Done /\ Computable /\ ~mix.pv /\ ~extra.aux) =>
+  (Done /\ Computable /\ ~mix.pv /\ ~extra.aux /\ extra.chp = "no") =>
      A(comps, Zero).v = RDiv(RAdd(RAdd(R((IF mix.hp THEN 60 ELSE 0) + (IF mix.ts THEN 30 ELSE 0)), Norm(IF mix.red THEN 50 ELSE 0, 2)),
                                   RAdd(RMul(R(IF mix.bio # "no" THEN 80 ELSE 0), BioFrac), RMul(R(IF mix.dbio THEN 40 ELSE 0), DBioFrac))),
                              R(Delivered10(mix)))
 \* direct electric + PV, single DHW use of electricity: the PV used for DHW per step over the demand
 ClosedFormPv ==
-  (Done /\ Computable /\ mix.pv /\ mix.el /\ ~mix.hp /\ ~mix.ts /\ ~mix.gas /\ ~mix.red /\ mix.bio = "no" /\ ~mix.dbio /\ ~extra.aux /\ ~extra.oel) =>
+  (Done /\ Computable /\ mix.pv /\ mix.el /\ ~mix.hp /\ ~mix.ts /\ ~mix.gas /\ ~mix.red /\ mix.bio = "no" /\ ~mix.dbio /\ ~extra.aux /\ ~extra.oel /\ extra.chp = "no") =>
      A(comps, Zero).v = RDiv(R(ISumSet(LAMBDA t : IMin(40, IF t = 1 THEN 30 ELSE 100), 1..n)), R(n * 40))
 
 Emit == Done => PrintT(<<"CASE", ToJson([src |-> [comps |-> comps], demand |-> demand])>>)
